@@ -182,7 +182,7 @@ func TestC13LinkStream(t *testing.T) {
 		vn := vnet.New()
 		a, _ := vn.AddNode("A", pool[c.Pick("idA", 20)], vnet.NodeOpts{})
 		alerts := mgr.NewAlertMgr(a.Peer.Manager())
-		phase := c.Weighted("phase", 3, 3, 4)
+		phase := c.Weighted("phase", 3, 3, 4, 3)
 		garbage := func(label string) []byte {
 			switch c.Pick(label+".kind", 4) {
 			case 0:
@@ -253,6 +253,35 @@ func TestC13LinkStream(t *testing.T) {
 				c.Fatalf("garbage during the handshake panicked the link setup: %v / %v", conn.A.Err, conn.B.Err)
 			}
 			conn.Teardown()
+		case 3: // several setups between the same two routers overlap (any directions, generated forwarding order, one of them possibly cut)
+			b, _ := vn.AddNode("B", pool[20+c.Pick("idB", 20)], vnet.NodeOpts{})
+			alertsB := mgr.NewAlertMgr(b.Peer.Manager())
+			w := &c16World{c: c, nodes: []*vnet.Node{a, b}}
+			var cs []*c16Conn
+			for i, k := 0, c.Int("setups", 2, 4); i < k; i++ {
+				x, y := 0, 1
+				if c.Bool("reverse") {
+					x, y = 1, 0
+				}
+				cc := &c16Conn{conn: wire.Dial(w.nodes[x], w.nodes[y]), a: x, b: y}
+				cs = append(cs, cc)
+				w.conns = append(w.conns, cc)
+				time.Sleep(2 * time.Millisecond)
+			}
+			failAt := -1
+			if c.Bool("cut") {
+				failAt = c.Int("cut.at", 0, 5)
+			}
+			w.drive(cs, c.Chance("lockstep", 1, 3), failAt) // a panicking setup fails the case there
+			for _, cc := range w.conns {
+				cc.conn.Teardown()
+			}
+			if up := alertsB.Export(); len(up.Alerts) > 0 {
+				c.Fatalf("a link worker panicked during overlapping setups: %s", up.Alerts[0].Message)
+			}
+			if w.inconcl {
+				c.Class("inconclusive-time-budget")
+			}
 		default: // after: established link fed garbage
 			b, _ := vn.AddNode("B", pool[20+c.Pick("idB", 20)], vnet.NodeOpts{})
 			conn := wire.Dial(a, b)
@@ -278,7 +307,7 @@ func TestC13LinkStream(t *testing.T) {
 			c.Fatalf("a link worker panicked on garbage input: %s", up.Alerts[0].Message)
 		}
 		c.Eval(fmt.Sprintf("stream|%d", phase), true, func() any {
-			return map[string]any{"layer": "link-stream", "phase": []string{"before", "during", "after"}[phase]}
+			return map[string]any{"layer": "link-stream", "phase": []string{"before", "during", "after", "overlapping-setups"}[phase]}
 		})
 	})
 }
